@@ -624,6 +624,9 @@ impl Debugger {
                             BrkptType::LinkerMapFn => {
                                 // ignore possible signals and watchpoints
                                 while self.step_over_breakpoint()?.is_some() {}
+                                // breakpoints whose library was not mapped at the entry point
+                                // (kept by `enable_all_breakpoints`) may be installable now
+                                _ = self.breakpoints.enable_all_breakpoints(&self.debugee);
                                 print_warns!(self.refresh_deferred());
                                 continue;
                             }
